@@ -70,5 +70,39 @@ theorem keyIdUnpack_eq_plan (v : Bytes) :
     Nat.reduceAdd, ite_not]
   simp (config := { decide := true }) only [keyIdOfEnv, arg, List.lookup, Option.getD, if_true, if_false]
 
+def ffcParamsPlan : List Step × List (String × String) :=
+  ([.magic 4 8, .int "key_length" 8 12,
+    .slice "field_order" (.lit 12) (.add (.lit 12) (.var "key_length")),
+    .slice "generator" (.add (.lit 12) (.var "key_length")) (.add (.add (.lit 12) (.var "key_length")) (.var "key_length")),
+    .beInt "be:field_order" "field_order", .beInt "be:generator" "generator"],
+   [("key_length", "key_length"), ("field_order", "be:field_order"), ("generator", "be:generator")])
+
+def ffcParamsOfEnv (ret : List (String × String)) (e : Env) : FfcParams :=
+  ⟨e.ints (arg ret "key_length"), e.ints (arg ret "field_order"), e.ints (arg ret "generator")⟩
+
+theorem ffcParamsUnpack_eq_plan (v : Bytes) :
+    ffcParamsUnpack v = (Plan.run dhpm ffcParamsPlan.1 v .empty).map (ffcParamsOfEnv ffcParamsPlan.2) := by
+  unfold ffcParamsUnpack ffcParamsPlan
+  simp only [Plan.run, Expr.eval, Env.setInt, Env.setBytes, Env.empty, bind, pure, Except.pure, ite_bind, map_ite', map_ok, map_err,
+    Nat.reduceAdd, ite_not]
+  simp (config := { decide := true }) only [ffcParamsOfEnv, arg, List.lookup, Option.getD, if_true, if_false]
+
+def ffcKeyPlan : List Step × List (String × String) :=
+  ([.magic 0 4, .int "key_length" 4 8, .guardLen (.add (.lit 8) (.mul (.lit 3) (.var "key_length"))),
+    .slice "field_order" (.lit 8) (.add (.lit 8) (.var "key_length")), .skipE (.add (.lit 8) (.var "key_length")),
+    .bytes "generator" "key_length", .skipLen "key_length", .bytes "public_key" "key_length",
+    .beInt "be:field_order" "field_order", .beInt "be:generator" "generator", .beInt "be:public_key" "public_key"],
+   [("key_length", "key_length"), ("field_order", "be:field_order"), ("generator", "be:generator"), ("public_key", "be:public_key")])
+
+def ffcKeyOfEnv (ret : List (String × String)) (e : Env) : FfcKey :=
+  ⟨e.ints (arg ret "key_length"), e.ints (arg ret "field_order"), e.ints (arg ret "generator"), e.ints (arg ret "public_key")⟩
+
+theorem ffcKeyUnpack_eq_plan (v : Bytes) :
+    ffcKeyUnpack v = (Plan.run dhpb ffcKeyPlan.1 v .empty).map (ffcKeyOfEnv ffcKeyPlan.2) := by
+  unfold ffcKeyUnpack ffcKeyPlan
+  simp only [Plan.run, Expr.eval, Env.setInt, Env.setBytes, Env.empty, bind, pure, Except.pure, ite_bind, map_ite', map_ok, map_err,
+    Nat.reduceAdd, ite_not]
+  simp (config := { decide := true }) only [ffcKeyOfEnv, arg, List.lookup, Option.getD, if_true, if_false, Py.sliceN, List.drop_zero]
+
 end Gkdi
 end DpapiNg
